@@ -171,6 +171,21 @@ def probe_stimuli(rep, first_id=9001):
     return out
 
 
+def sizes_stage(rep, tier, seed, rng, prop, names, quick_n=40):
+    """records of two sizes: a replication response is packed by size, the record that does not fit leads
+    the next response (WideEvery = 2: every second message takes two units)"""
+    res = core.tlc_check('MC_Replication.tla', 'MC_Replication_sizes.cfg', timeout=1800)
+    rep.add_design('MC_Replication_sizes.cfg', res)
+    pool = core.tlc_simulate('MC_Replication.tla', 'Sim_Replication_sizes.cfg', 500 if tier == 'quick' else 5000, 18, seed + 3)
+    sims, _ = select(pool, quick_n if tier == 'quick' else 400, rng)
+    b3 = [to_stimulus(b, 8000 + i, {'minISR': 2, 'fetchMax': 2, 'rf': 3, 'wideEvery': 2})
+          for i, b in enumerate(sims) if len(b) > 1]
+    with core.scratch(prop.lower()) as d:
+        trace = execute(b3, d, timeout=3000)
+        tr3 = judge(rep, b3, trace, prop, names, 'Trace_Replication_sizes.cfg')
+    return b3, tr3['validated']
+
+
 # defective variants of single decisions of the MODEL (Mutant_Replication_<name>.cfg): TLC's counterexample of
 # each is a directed scenario in which exactly that decision matters; the real code must pass it
 MODEL_MUTANTS = ['OffsetsNone', 'OffsetsAhead']
@@ -260,20 +275,9 @@ def run(rep, tier, seed, replay, prop, names, relevant, rule, rf1=False, mc_quic
             tr2 = judge(rep, b2, trace, prop, names)
         behaviours += b2
         lines += tr2['validated']
-    if True:
-        # records of two sizes: a replication response is packed by size, the record that does not
-        # fit leads the next response (WideEvery = 2: every second message takes two units)
-        res = core.tlc_check('MC_Replication.tla', 'MC_Replication_sizes.cfg', timeout=1800)
-        rep.add_design('MC_Replication_sizes.cfg', res)
-        pool = core.tlc_simulate('MC_Replication.tla', 'Sim_Replication_sizes.cfg', 500 if tier == 'quick' else 5000, 18, seed + 3)
-        sims, _ = select(pool, 40 if tier == 'quick' else 400, rng)
-        b3 = [to_stimulus(b, 8000 + i, {'minISR': 2, 'fetchMax': 2, 'rf': 3, 'wideEvery': 2})
-              for i, b in enumerate(sims) if len(b) > 1]
-        with core.scratch(prop.lower()) as d:
-            trace = execute(b3, d, timeout=3000)
-            tr3 = judge(rep, b3, trace, prop, names, 'Trace_Replication_sizes.cfg')
-        behaviours += b3
-        lines += tr3['validated']
+    b3, l3 = sizes_stage(rep, tier, seed, rng, prop, names)
+    behaviours += b3
+    lines += l3
     rep.cov['traces_validated_against_impl'] = len(behaviours)
     rep.cov['trace_lines_validated'] = lines
     rep.cov['evaluations'] = len(behaviours)
